@@ -167,6 +167,9 @@ func runC19(c *core.Ctx) {
 			cv.envVal = words[r.Intn(len(words))]
 			if cv.hasClear {
 				cv.envVal = words[r.Intn(len(words))] + ", " + words[r.Intn(len(words))] + " ," + words[r.Intn(len(words))]
+			} else if r.Intn(3) == 0 {
+				// a single-valued type gets the variable's content byte for byte, blanks included
+				cv.envVal = []string{" e1 ", "two words", "\ttab", " ", "e1 "}[r.Intn(5)]
 			}
 		case 2:
 			cv.envVal = "BAD"
